@@ -155,3 +155,32 @@ fn quantized_fallback_contract() {
     assert!(out.len() == 3, "OBL fallback-result: the result is what the n^2 path returns");
     core::mem::forget(out);
 }
+
+/// smaller instances of the same contract (the 3-vertex instance makes CBMC abort in the
+/// propositional reduction: > 40 GB for the chained `collect`)
+#[kani::proof]
+#[kani::unwind(6)]
+#[kani::stub(quantize_coords, stub_quantize_none)]
+#[kani::stub(dedup_vertices_epsilon_n2, stub_n2)]
+fn quantized_fallback_n2_contract() {
+    N2_SEEN.store(0, AOrd::Relaxed);
+    let out = dedup_vertices_epsilon_quantized(vec![vtx1(1), vtx1(2)], 1e-10);
+    let seen = N2_SEEN.load(AOrd::Relaxed);
+    assert!((seen >> 56) == 2 && (seen & 0xff) == 0x21,
+        "OBL fallback-complete: when a vertex cannot be bucketed, the n^2 path receives ALL the input (the offending vertex and the rest) in order - no vertex is lost");
+    assert!(out.len() == 2, "OBL fallback-result: the result is what the n^2 path returns");
+    core::mem::forget(out);
+}
+#[kani::proof]
+#[kani::unwind(6)]
+#[kani::stub(quantize_coords, stub_quantize_none)]
+#[kani::stub(dedup_vertices_epsilon_n2, stub_n2)]
+fn quantized_fallback_n1_contract() {
+    N2_SEEN.store(0, AOrd::Relaxed);
+    let out = dedup_vertices_epsilon_quantized(vec![vtx1(1)], 1e-10);
+    let seen = N2_SEEN.load(AOrd::Relaxed);
+    assert!((seen >> 56) == 1 && (seen & 0xf) == 0x1,
+        "OBL fallback-complete: when a vertex cannot be bucketed, the n^2 path receives ALL the input (the offending vertex and the rest) in order - no vertex is lost");
+    assert!(out.len() == 1, "OBL fallback-result: the result is what the n^2 path returns");
+    core::mem::forget(out);
+}
